@@ -88,6 +88,15 @@ var poison = []string{
 	"type ZzR = {ZzA: ZzR}\n",
 	"type ZzV =\n  | ZzV1 of ZzV\n",
 	"let zz<T> (a:T) = a\n",
+	"type ZzA2 = {ZzN: int}\ntype ZzA2 = {ZzX: ZzA2}\n",
+	"type ZzP<T> = {ZzPa: T; ZzPb: T}\ntype ZzQ = {ZzQp: ZzP<ZzQ>}\n",
+	"import dict\ntype ZzD = {ZzDa: dict.Dict<string, ZzD>}\nlet zzd (r:ZzD) = r\n",
+	"type ZzO<T> =\n  | ZzS of T\n  | ZzNn\ntype ZzR2 = {ZzF: ZzO<ZzR2>}\nlet zzr (r:ZzR2) = r\n",
+	"type ZzT3 = {ZzF3: ZzT3*int}\n",
+	"type ZzFn = {ZzCall: ZzFn->int}\n",
+	"type ZzM1 = {ZzM1f: []ZzM2}\nand ZzM2 = {ZzM2f: ZzM1*ZzM1}\n",
+	"type ZzG<T> = {ZzGv: T; ZzGn: ZzG<[]T>}\n",
+	"type ZzW<T> =\n  | ZzWa of ZzW<ZzW<T>>\n  | ZzWb of T\nlet zzw (w:ZzW<int>) = w\n",
 	"let zz = fun x -> x x\n",
 	"\t",
 	"\r\n",
